@@ -288,6 +288,11 @@ class State:
         return n
 
 
+class StoreSnapshot(dict):
+    """a copy of State.store taken before an opaque call, together with the havoc epochs at that moment"""
+    epoch = None
+
+
 class Path:
     def __init__(self, state, outcome, detail, func):
         self.state, self.outcome, self.detail, self.func = state, outcome, detail, func
@@ -1009,7 +1014,8 @@ class Executor:
             return None
         # havoc result and everything reachable through reference arguments (or, if the query
         # declares what the callee may modify, only that)
-        snapshot = dict(st.store)
+        snapshot = StoreSnapshot(st.store)        # the store as it was right before the call ...
+        snapshot.epoch = dict(st.epoch)           # ... and which memory had been havocked by then
         limited = [v for r, v in self.modifies.items() if re.search(r, short)]
         # an argument of type `&T` (shared) is read-only for the callee: modelled state has no
         # interior mutability, so nothing behind it is havocked
